@@ -10,6 +10,7 @@ mod props;
 mod report;
 mod sem;
 mod sweep;
+mod trees;
 mod triggers;
 
 use serde_json::Value;
@@ -26,6 +27,9 @@ pub fn generic_replay(case: &Value) -> Option<String> {
     match case.get("kind").and_then(|k| k.as_str()) {
         Some("sem") => sem::replay(case),
         Some("parse") => props::c05::replay(case),
+        Some("tree") => props::c06::replay(case),
+        Some("prep") => props::c07::replay(case),
+        Some("reject") => props::c14::replay(case),
         other => Some(format!("unknown replay kind {other:?}")),
     }
 }
@@ -73,7 +77,10 @@ fn main() {
         "C02" => props::c02::run(tier),
         "C03" => props::c03::run(tier),
         "C05" => props::c05::run(tier),
+        "C06" => props::c06::run(tier),
+        "C07" => props::c07::run(tier),
         "C13" => props::c13::run(tier),
+        "C14" => props::c14::run(tier),
         _ => {
             eprintln!("unknown property {id}");
             std::process::exit(2);
